@@ -19,7 +19,8 @@ sketch, that has no active item but a non-zero total weight / maximum error (eve
 is then true).  The full statements are kept as `…_full` and refuted by concrete witnesses (`…_full_false`), which are
 replayed on the real code by the check (corpus/regress/C12, open entries of known_findings.json).
 -/
-import DSProofs.Lemmas.FiEps
+import DSProofs.Lemmas.FiCap
+import DSProofs.Lemmas.FiTable
 namespace DS.Fi
 
 variable {ι : Type} [DecidableEq ι]
@@ -216,11 +217,56 @@ theorem fi_median_ok (T : Tun) (s : St ι) (x : ι) (w a : Nat) (h : a ≤ purge
 
 example : ∃ s : St Nat, ReachMed exTun s ∧ s.offset = 3 ∧ s.total = 26 ∧ s.lgMax = 3 := by
   refine ⟨updateMed exTun (replay exTun (init exTun 3 3) (exStream.take 6)) 7 4, ?_, by decide, by decide, by decide⟩
-  refine ReachMed.upd 7 4 _ ?_ (fi_median_ok _ _ _ _ _ (Nat.le_refl _))
-  have hnew : ReachMed exTun (init exTun 3 3 : St Nat) := ReachMed.new 3 3 (by decide)
-  exact ReachMed.upd 6 2 0 (ReachMed.upd 5 2 0 (ReachMed.upd 4 9 0 (ReachMed.upd 3 1 0 (ReachMed.upd 2 3 0
-    (ReachMed.upd 1 5 0 hnew (by intro h; exact absurd h (by decide))) (by intro h; exact absurd h (by decide)))
+  refine ReachP.upd 7 4 _ ?_ (fi_median_ok _ _ _ _ _ (Nat.le_refl _))
+  have hnew : ReachMed exTun (init exTun 3 3 : St Nat) := ReachP.new 3 3 (by decide)
+  exact ReachP.upd 6 2 0 (ReachP.upd 5 2 0 (ReachP.upd 4 9 0 (ReachP.upd 3 1 0 (ReachP.upd 2 3 0
+    (ReachP.upd 1 5 0 hnew (by intro h; exact absurd h (by decide))) (by intro h; exact absurd h (by decide)))
     (by intro h; exact absurd h (by decide))) (by intro h; exact absurd h (by decide)))
     (by intro h; exact absurd h (by decide))) (by intro h; exact absurd h (by decide))
+
+/-! ## load invariant -/
+
+/-- If every purge deletes at least one counter (`AmtDel`; true of the code's median and of every other order statistic
+of the counters, `fi_median_deletes`) the number of active items never exceeds `get_capacity()` of the current table
+size, for every stream, merge tree and round trip. Hence `purge did not reduce number of active items` and
+`num_active > capacity` are unreachable, and re-inserting a serialised sketch's items into a table of the same lgCur
+neither grows nor purges (which is why `roundtrip` is the identity on non-empty sketches).
+Side condition: the smallest table has capacity ≥ 1 (`⌊2^LG_MIN_MAP_SIZE · LOAD_FACTOR⌋ ≥ 1`). -/
+theorem fi_capacity (T : Tun) (hmin : 1 ≤ capacity T T.lgMin) {b : Bool} {s : St ι} (h : ReachP T b (AmtDel T) s) :
+    numActive s ≤ capacity T s.lgCur ∧ s.lgCur ≤ s.lgMax ∧ T.lgMin ≤ s.lgCur := by
+  have := reachP_cap T hmin h
+  exact this
+
+theorem fi_median_deletes (T : Tun) (s : St ι) (x : ι) (w : Nat) :
+    AmtDel T s x w (purgeAmountAll (adjust s.map x w)) :=
+  amtDel_median T s x w
+
+example : ∃ s : St Nat, ReachP exTun false (AmtDel exTun) s ∧ numActive s = 3 ∧ capacity exTun s.lgCur = 6 := by
+  refine ⟨updateMed exTun (replay exTun (init exTun 3 3) (exStream.take 6)) 7 4, ?_, by decide, by decide⟩
+  refine ReachP.upd 7 4 _ ?_ (fi_median_deletes _ _ _ _)
+  have hnew : ReachP exTun false (AmtDel exTun) (init exTun 3 3 : St Nat) := ReachP.new 3 3 (by decide)
+  exact ReachP.upd 6 2 0 (ReachP.upd 5 2 0 (ReachP.upd 4 9 0 (ReachP.upd 3 1 0 (ReachP.upd 2 3 0
+    (ReachP.upd 1 5 0 hnew (by intro h; exact absurd h (by decide))) (by intro h; exact absurd h (by decide)))
+    (by intro h; exact absurd h (by decide))) (by intro h; exact absurd h (by decide)))
+    (by intro h; exact absurd h (by decide))) (by intro h; exact absurd h (by decide))
+
+/-! ## L2 (reverse-purge table model) – partial
+
+The full refinement `abs2 (update2 …) = update (abs2 …) …` of DSModel/Fi/Table.lean (probe chains, `hash_delete`
+back-shift, scan order) is NOT proved; the table model is tied to the code by the correspondence check only and serves
+to resolve L1's free choices.  What is proved: the choice it makes for the purge amount is the one `fi_epsilon` and
+`fi_capacity` accept whenever the table fits the purge sample. -/
+
+/-- If all active slots are counted (`activeIdx.length = numActive`) and `numActive ≤ MAX_SAMPLE_SIZE`, the amount computed
+by the table model's `purge()` (rank n/2 of the first n active values in index order) is the median of ALL counters of
+any abstract map listing the same entries – i.e. `purgeAmountAll`, which satisfies `AmtOK` and `AmtDel`. -/
+theorem fi_l2_purge_amount (T : Tun) (t : Tab) (h1 : t.activeIdx.length = t.numActive)
+    (h2 : t.numActive ≤ T.maxSample) (m : Map Nat) (hp : m.Perm t.entries) :
+    t.sampleMedian T = purgeAmountAll m :=
+  Tab.sampleMedian_eq_all T t h1 h2 m hp
+
+example : let t := (replay2 exTun id medianOf (init2 exTun 3 3) [(1, 5), (2, 3), (3, 1), (12, 9), (5, 2), (6, 2), (20, 4)] []).1.tab
+    t.activeIdx.length = t.numActive ∧ t.numActive ≤ exTun.maxSample ∧ t.numActive = 3 ∧ t.sampleMedian exTun = 2 := by
+  decide
 
 end DS.Fi
